@@ -1,7 +1,7 @@
 """C17 - reported diagnostics describe the run that happened (AndersonCD level S + history oracle)."""
 from .solver_common import run_parallel, run_bbox
 
-LEAN_MODULES = ["Skglm.Properties.C17", "Skglm.Properties.FISTA", "Skglm.Properties.GramCD"]
+LEAN_MODULES = ["Skglm.Properties.C17", "Skglm.Properties.FISTA", "Skglm.Properties.GramCD", "Skglm.Properties.LBFGS"]
 
 
 def run(ctx, rep):
@@ -15,6 +15,7 @@ def run(ctx, rep):
     from . import moves_common
     moves_common.run_fista(ctx, rep)
     moves_common.run_gram_moves(ctx, rep, ctx.n(30, 300))
+    moves_common.run_lbfgs(ctx, rep)
 
 
 def replay(ctx, payload):
